@@ -119,6 +119,9 @@ def check_accessor(ctx: Ctx, qn: str, rule: str = "R-SUP") -> None:
                           construct="iter_annotator")
         return
     accepted = SPECS[qn]
+    if qn == "Continuum.annotators":
+        from .common import check_annotator_order
+        check_annotator_order(ctx, rule, judge=ctx.prop in ("C10", "C13"))
     r = _single_return(f)
     got = None
     if r is not None:
@@ -152,4 +155,20 @@ def check_reachable_support(ctx: Ctx, rule: str = "R-SUP") -> int:
         if qn in reach and qn not in done:
             check_accessor(ctx, qn, rule)
             n += 1
+    # any other property getter on the way: read as "computed from the object's current state".  One that stores into the object keeps an
+    # answer for later reads (a cache): whether every mutator invalidates it is a history argument this property's rules do not make.
+    for qn in sorted(reach | {q for q in ctx.functions_analysed if q in M.functions}):
+        g = M.functions.get(qn)
+        if g is None or g.kind != "property" or not g.self_name or isinstance(g.node, ast.Lambda):
+            continue
+        st = [s for s in walk_no_nested(g.node) if isinstance(s, (ast.Assign, ast.AugAssign, ast.AnnAssign)) and getattr(s, "value", None) is not None and
+              any(isinstance(t, (ast.Attribute, ast.Subscript)) and norm(t).split(".")[0].split("[")[0] == g.self_name
+                  for t in (s.targets if isinstance(s, ast.Assign) else [s.target]))]
+        if not st:
+            continue
+        if g.qualname in ("Alignment.disorder", "UnitaryAlignment.disorder"):
+            continue          # the disorder caches of the pinned tree: owned by C03's rules (R-C03-3 / R-C03-4)
+        n += 1
+        ctx.undecided(rule, g, st[0], f"the accessor {qn} stores into the object it is read from (`{norm(st[0])[:70]}`): it answers later reads from that store; "
+                      f"whether every mutator refreshes it is not decided here (not a verdict; the rules on the mutators' effect sets judge it)", key=f"accessor-writes:{qn}")
     return n
